@@ -104,6 +104,29 @@ def pool(R):
         for s in ("2 mars 2020", "2 March 2020", "02/03/2020", "2 März 2020"):
             P.append({"fn": "gdd", "s": s, "kw": {"locales": [loc], "settings": {"RELATIVE_BASE": B1}}}); regional.append(len(P) - 1)
     pool.regional = regional
+    # the same language / locale list requested in its given order and in the library's priority order (lists that are not already in
+    # priority order, strings that several of the listed languages accept): one request must not decide the order of the other
+    ordered = []
+    for lg in (["fr", "en"], ["sv", "fr", "es"], ["de", "en"], ["it", "es", "en"]):
+        for s in ("02-03-2016", "3 mars 2019", "10/11/2012 10:30", "2015-06-07"):
+            for given in (True, False):
+                P.append({"fn": "gdd", "s": s, "kw": {"languages": lg, "use_given_order": given, "settings": {"RELATIVE_BASE": B1}}}); ordered.append(len(P) - 1)
+    for lc in (["fr-BE", "en-CC"], ["de-AT", "en-GB"]):
+        for s in ("02-03-2016", "10/11/2012"):
+            for given in (True, False):
+                P.append({"fn": "gdd", "s": s, "kw": {"locales": lc, "use_given_order": given, "settings": {"RELATIVE_BASE": B1}}}); ordered.append(len(P) - 1)
+    pool.ordered = ordered
+    # search_dates with language detection under NORMALIZE=False, and calls that share that settings value on accented strings: detection
+    # must neither depend on what was detected before nor leave anything behind on the caller's settings value
+    norms = []
+    for stv in ({"NORMALIZE": False, "RELATIVE_BASE": B1}, {"NORMALIZE": False, "RELATIVE_BASE": B1, "SKIP_TOKENS": ["vers"]}, {"NORMALIZE": True, "RELATIVE_BASE": B1}):
+        for t in ("Rendez-vous le 11 décembre 2014 à 09:00, puis le 3 février 2015.", "Am 5. März 2016 und später.", "El miércoles 4 de marzo de 2015 fue.",
+                  "The meeting is on 4 October 1957 at 10:30."):
+            P.append({"fn": "search", "s": t, "kw": {"settings": stv}}); norms.append(len(P) - 1)
+            P.append({"fn": "search", "s": t, "kw": {"settings": stv, "languages": ["fr", "de", "es", "en"]}}); norms.append(len(P) - 1)
+        for lg, s2 in ((["fr"], "11 décembre 2014"), (["fr"], "il y a 3 années"), (["es"], "miércoles 4 de marzo de 2015"), (["de"], "5. März 2016"), (["fr"], "vers le 3 février 2015")):
+            P.append({"fn": "parse", "s": s2, "kw": {"languages": lg, "settings": stv}}); norms.append(len(P) - 1)
+    pool.norms = norms
     # failing calls
     P.append({"fn": "parse", "s": "2015", "kw": {"settings": {"UNKNOWN": 1}}})
     P.append({"fn": "parse", "s": "2015", "kw": {"languages": ["xx"]}})
@@ -180,6 +203,12 @@ def run(ctx):
         rg = getattr(pool, "regional", [])
         for _ in range(60 if tier == "quick" else 1500):
             hists.append(([R.choice(rg) for _ in range(R.randint(2, 4))], "0"))
+        nm = getattr(pool, "norms", [])
+        for _ in range(80 if tier == "quick" else 1500):
+            hists.append(([R.choice(nm) for _ in range(R.randint(2, 4))], "0"))
+        od = getattr(pool, "ordered", [])
+        for _ in range(60 if tier == "quick" else 1200):
+            hists.append(([R.choice(od) for _ in range(R.randint(2, 4))], "0"))
         for a in getattr(pool, "poison", []):
             for b in getattr(pool, "sensitive", []):
                 hists.append(([a, b], "0"))
